@@ -311,3 +311,49 @@ func valueSets(fn *ssa.Function, v ssa.Value, is tracker) map[*ssa.BasicBlock]is
 func setAt(fn *ssa.Function, v ssa.Value, i ssa.Instruction) iset {
 	return valueSets(fn, v, nil)[i.Block()]
 }
+
+// valueSetsAssuming is valueSets with correlated-branch pruning: `assume` gives the truth of some
+// boolean values (by access path) that holds wherever the caller is interested (typically the
+// boolean facts dominating the site of interest, on fields that are not assigned in fn). Edges whose
+// branch condition contradicts an assumption are not followed, so a guard such as
+// `if !x.flag && len(l) == 0 { return }` constrains len(l) on the paths where x.flag is false.
+func valueSetsAssuming(fn *ssa.Function, typ types.Type, is tracker, assume map[string]bool) map[*ssa.BasicBlock]iset {
+	in := map[*ssa.BasicBlock]iset{}
+	if len(fn.Blocks) == 0 {
+		return in
+	}
+	in[fn.Blocks[0]] = typeRange(typ)
+	contradicts := func(b *ssa.BasicBlock, si int) bool {
+		iff, ok := b.Instrs[len(b.Instrs)-1].(*ssa.If)
+		if !ok || b.Succs[0] == b.Succs[1] {
+			return false
+		}
+		c, ok := normFact(EdgeFact{Cond: iff.Cond, Taken: si == 0})
+		if !ok || c.Op != token.EQL {
+			return false
+		}
+		cb, isB := constBool(c.Y)
+		if !isB {
+			return false
+		}
+		want, known := assume[pathOf(c.X)]
+		return known && want != cb
+	}
+	work := []*ssa.BasicBlock{fn.Blocks[0]}
+	for len(work) > 0 {
+		b := work[len(work)-1]
+		work = work[:len(work)-1]
+		for si, s := range b.Succs {
+			if contradicts(b, si) {
+				continue
+			}
+			out := in[b].intersect(constraintOnEdge(b, si, is))
+			nw := in[s].union(out)
+			if !nw.equal(in[s]) {
+				in[s] = nw
+				work = append(work, s)
+			}
+		}
+	}
+	return in
+}
